@@ -148,7 +148,7 @@ def direct_calls(M, rec, rng, reps):
                     V = R.veq(rho[i], p["v_free"], p["rho_crit"], p["a"])
                     vc.append(rng.choice((rng.uniform(10, 70), 200.0, math.inf, 0.0, V / 1.1, V)))
                 rec.seen("optional_combos", ("controlled_Veq", min(len(vsl), 2), N == len(vsl)))
-                E.LinksEngine.controlled_Veq(vec_(rho, side), vec(vc, side), vsl, 0.1, p["v_free"], p["rho_crit"], p["a"])
+                E.LinksEngine.controlled_Veq(vec_(rho, side), vec(vc, side), vsl, rng.choice((0.1, 0.0, -0.1)), p["v_free"], p["rho_crit"], p["a"])
             elif prim == "step_queue":
                 E.OriginsEngine.step_queue(s(rng.choice((0.0, rng.uniform(0, 500)))), s(rng.uniform(0, 5000)),
                                            s(rng.uniform(0, 5000)), T)
@@ -241,9 +241,11 @@ def vsl_layouts(M, rec, rng, nmax, k=0, n=1):
             vsl = [j for j in range(N) if mask >> j & 1]
             p = link_pars(rng)
             rho = [rng.uniform(2, p["rho_crit"]) for _ in range(N)]
-            alpha = rng.choice((0.0, 0.1))
+            alpha = rng.choice((0.0, 0.1, -0.1, -0.15))  # non-compliance, or enforced limits
             Ve = [R.veq(x, p["v_free"], p["rho_crit"], p["a"]) for x in rho]
-            vc = [Ve[j] * rng.uniform(0.3, 0.8) / (1 + alpha) for j in vsl]
+            # binding limits; sometimes every sign idle (showing the free-flow speed or more)
+            idle = rng.random() < 0.2
+            vc = [(rng.choice((p["v_free"], p["v_free"] * 1.3, 1e9)) if idle else Ve[j] * rng.uniform(0.3, 0.8) / (1 + alpha)) for j in vsl]
             exp = list(Ve)
             for j, c in zip(vsl, vc):
                 exp[j] = min(Ve[j], (1 + alpha) * c)
